@@ -325,7 +325,7 @@ def explore(kind, n, cfg, hidden, states, d, persistent, judge, snap=False, extr
                     t.c["exec_d%d%s" % (len(ex.raise_at), "p" if ex.persist else "")] += 1
                 if len(ex.log) > t.c["max_hooks_per_run"]:
                     t.c["max_hooks_per_run"] = len(ex.log)
-                core.guard(t, judge.upper() if isinstance(judge, str) else "E1", forest.case_of(ex, witness), jf, t, ex, witness, extra)
+                core.guard(t, judge.upper() if isinstance(judge, str) else "E1", forest.case_of(ex, witness), jf, t, ex, witness, extra, _limit=10)
                 t.obs((kind, key, op, ex.raise_at, ex.persist, ex.outcome, ex.post, [r[:3] for r in ex.log]))
                 if t.c["executions"] % 9973 == 1:
                     t.sample(forest.case_of(ex, witness), cap=2)
@@ -361,7 +361,7 @@ def explore_two_step(t, kind, n, hidden, states, judge, extra, ts):
                     for ex in forest.runs(kind, n, w2, pre2, op2, ts.get("d2", 0), tuple(ts.get("persistent2", ())), False, want2):
                         t.c["executions"] += 1
                         t.c["two_step_executions"] += 1
-                        core.guard(t, judge.upper(), forest.case_of(ex, w2), jf, t, ex, w2, extra)
+                        core.guard(t, judge.upper(), forest.case_of(ex, w2), jf, t, ex, w2, extra, _limit=10)
                         t.obs((kind, key, step, op2, ex.raise_at, ex.persist, ex.outcome, ex.post))
         if t.c["executions"] and len(t.samples) < 1:
             t.sample({"kind": kind, "witness": [list(w) for w in witness], "step1": "every call under every non-empty fault plan",
